@@ -214,7 +214,19 @@ func WithBudget(b uint64, f func()) {
 }
 
 // Run is RunCLI plus bookkeeping.
+// beat tells the coordinator that the worker is alive inside a long case (a
+// case of the enumerating families is hundreds or thousands of runs).
+var beatCount int
+
+func beat() {
+	beatCount++
+	if beatCount%256 == 0 && out != nil {
+		send(Msg{T: "beat"})
+	}
+}
+
 func (e *Env) Run(spec world.Spec) *RunResult {
+	beat()
 	r := RunCLI(e.Prog, spec)
 	if os.Getenv("VERIF_DUMP") != "" {
 		fmt.Fprintf(os.Stderr, "RUN args=%v outcome=%s exit=%d\n stdout=%q\n stderr=%q\n", spec.Args, r.Outcome, r.Exit, clip(string(r.Stdout), 600), clip(string(r.Stderr), 600))
@@ -230,6 +242,7 @@ func (e *Env) Run(spec world.Spec) *RunResult {
 }
 
 func (e *Env) RunHook(spec world.Spec, hook func(w *world.World, op *world.Op)) *RunResult {
+	beat()
 	r := RunCLIHook(e.Prog, spec, hook)
 	if !e.Quiet {
 		e.Stats.NoteRun(r)
